@@ -54,7 +54,11 @@ def gen_source(rng, idx, big=None):
     if fwd:
         L.append("\tjmp fwd%d" % idx)
     body = ["\tnop"] * rng.randint(1, 4)
-    kinds = ["\tfoo%d 1", "\tlda #%d+1000", "\tlda", "\terror \"planted %d\"", "\tlda #undef%d"]
+    kinds = ["\tfoo%d 1", "\tlda #%d+1000", "\tlda", "\terror \"planted %d\"", "\tlda #undef%d",
+             # diagnostics raised inside expansions (one per iteration / call)
+             "em%d\tmacro\n\tfoo%d 1\n\tendm\n\tem%d", "\trept 2\n\tlda #%d+1000\n\tendm", "\tirp x%d,1,2,3\n\tlda\n\tendm",
+             "wm%d\tmacro\n\twarning \"in macro\"\n\tendm\n\twm%d\n\twm%d", "\tbne *+%d+300", "l%d:\nl%d:",
+             "\tif undefined%d\n\tnop\n\tendif", "\tdfs -%d-1", "\tbyt 1/0"]
     if ne > 2000:
         body += ["\tfoo 1"] * ne
     else:
